@@ -17,7 +17,11 @@ pub struct C10;
 #[derive(Clone, Debug, Serialize, Deserialize)]
 pub enum Case {
     /// proving requests (valid and refused ones, any entry point) written into one output stream
-    Stream { req: crate::pipeline::Req, items: Vec<(crate::props::c12::Via, crate::props::c12::Inval)> },
+    Stream { req: crate::pipeline::Req, items: Vec<(crate::props::c12::Via, crate::props::c12::Inval)>, #[serde(default)] io: Option<u8> },
+    /// unseeded identities: the bytes key_gen / extended_key_gen write (Rust API and C interface) are
+    /// the documented tuples (secret, commitment) / (trapdoor, nullifier, secret, commitment), checked
+    /// through the relations an importer of the bytes would recompute with its own Poseidon
+    IdentityBytes(u8),
     Field(Fx),
     VecFr(Vec<Fx>),
     VecU8(Vec<u8>),
@@ -75,12 +79,61 @@ macro_rules! g {
     };
 }
 
+fn identity_bytes(o: &mut Outcome) {
+    use crate::models::poseidon_ref::poseidon;
+    let r = crate::props::c14::rln_instance();
+    let fields = |b: &[u8]| -> Vec<BigUint> { b.chunks(32).map(BigUint::from_bytes_le).collect() };
+    let mut outs: Vec<(&str, Vec<u8>)> = vec![];
+    let mut a = gens::Sink::new();
+    match guarded(|| r.key_gen(&mut a).map_err(|e| e.to_string())) {
+        Ok(Ok(())) => outs.push(("RLN::key_gen", a.data)),
+        other => {
+            vfail!(o, "RLN::key_gen failed: {other:?}");
+            return;
+        }
+    }
+    let mut b = gens::Sink::new();
+    match guarded(|| r.extended_key_gen(&mut b).map_err(|e| e.to_string())) {
+        Ok(Ok(())) => outs.push(("RLN::extended_key_gen", b.data)),
+        other => {
+            vfail!(o, "RLN::extended_key_gen failed: {other:?}");
+            return;
+        }
+    }
+    for (name, f) in [("ffi::key_gen", rln::ffi::key_gen as extern "C" fn(*const rln::public::RLN, *mut rln::ffi::Buffer) -> bool), ("ffi::extended_key_gen", rln::ffi::extended_key_gen)] {
+        let mut ob = rln::ffi::Buffer { ptr: std::ptr::null(), len: 0 };
+        if !f(r as *const rln::public::RLN, &mut ob as *mut rln::ffi::Buffer) {
+            vfail!(o, "{name} reported failure");
+            return;
+        }
+        outs.push((name, gens::ffi_take_output(ob.ptr, ob.len)));
+    }
+    for (name, bytes) in outs {
+        o.evals += 1;
+        let v = fields(&bytes);
+        let ok = match (bytes.len(), v.len()) {
+            (64, 2) => poseidon(&[v[0].clone()]) == v[1],
+            (128, 4) => poseidon(&[v[0].clone(), v[1].clone()]) == v[2] && poseidon(&[v[2].clone()]) == v[3],
+            _ => false,
+        };
+        if !ok || v.iter().any(|x| x >= p()) {
+            vfail!(o, "{name}: the {} bytes written are not the documented identity tuple (secret, commitment = H(secret)) / (trapdoor, nullifier, secret = H(trapdoor, nullifier), commitment = H(secret)) in canonical 32-byte little-endian elements", bytes.len());
+            return;
+        }
+    }
+    if let Some(m) = gens::ffi_outputs_breach() {
+        vfail!(o, "{m}");
+    }
+}
+
 fn check_case(case: &Case, o: &mut Outcome) {
     match case {
-        Case::Stream { req, items } => {
-            gens::set_io_style((case_hash(case) % 4) as u8);
+        Case::Stream { req, items, io } => {
+            gens::set_io_style(io.unwrap_or((case_hash(case) % 4) as u8));
+            o.label(format!("stream/io-style-{}", gens::io_style()));
             crate::props::c12::run_stream(req, items, o);
         }
+        Case::IdentityBytes(_) => identity_bytes(o),
         Case::Field(f) => {
             let want = cr::enc_fr(&f.big());
             let got = g!(o, "fr_to_bytes_le", ru::fr_to_bytes_le(&f.0));
@@ -367,7 +420,7 @@ impl Property for C10 {
         "C10"
     }
     fn rule(&self) -> String {
-        "values of every encodable type: field elements (boundary-weighted incl. 0, p-1 and leading-zero-byte values), Vec<Fr>/Vec<u8> of length 0..64 and size classes up to 3000 elements / 70000 bytes (255/256/257, 65535/65536), index lists and usize incl. 0, 2^32-1, 2^32, 2^63, witnesses with any path length/direction bytes, proof values, identity tuples, prove/verify requests with any signal; streams of 2..6 proving requests for one member (valid / outside the circuit's bit range / mid = limit / truncated / non-binary direction; tree, witness and raw-prove entries) written into one writer; \
+        "values of every encodable type: field elements (boundary-weighted incl. 0, p-1 and leading-zero-byte values), Vec<Fr>/Vec<u8> of length 0..64 and size classes up to 3000 elements / 70000 bytes (255/256/257, 65535/65536), index lists and usize incl. 0, 2^32-1, 2^32, 2^63, witnesses with any path length/direction bytes, proof values, identity tuples, prove/verify requests with any signal; unseeded identity tuples as written by key_gen / extended_key_gen (Rust API and C interface; relations recomputed with the reference Poseidon); streams of 2..6 proving requests for one member (valid / outside the circuit's bit range / mid = limit / truncated / non-binary direction; tree, witness and raw-prove entries) written into one writer (the canonical stream once per writer behaviour: everything at once, 1, 7, 33 bytes per call); \
          checked: zerokit encoder == independent encoder, proving requests encoded independently (any signal length incl. empty) decode through proof_inputs_to_rln_witness to the same values and the leaf's direction bits, zerokit decoder on independent encoding == value, independent decoder on zerokit encoding == value, JSON and byte->JSON->byte round trips, bigint-JSON decimal strings, and one generated truncation + one extension of every witness encoding is not accepted; for a stream: every successful request appends exactly one record of the documented length (288 / 128 bytes), a refused request appends nothing, and every record cut out at its offset is accepted by verification. \
          non-trivial = value with a zero-length vector, a leading-zero field element, or an integer >= 2^32; distinct by case content".into()
     }
@@ -401,6 +454,7 @@ impl Property for C10 {
         let mut o = Outcome::new();
         let (label, nt) = match case {
             Case::Stream { items, .. } => ("stream-of-proving-requests", items.len() >= 2),
+            Case::IdentityBytes(_) => ("identity-bytes", true),
             Case::Field(f) => ("field", leading_zero(f)),
             Case::VecFr(v) => ("vec_fr", v.is_empty() || v.iter().any(leading_zero)),
             Case::VecU8(v) => ("vec_u8", v.is_empty()),
@@ -477,9 +531,13 @@ impl Property for C10 {
             (Via::RawProve, Inval::MidAboveBitRange(0, 0)),
             (Via::RawProve, Inval::Valid),
         ];
-        for (k, req) in reqs.into_iter().enumerate() {
-            let items = if k == 0 { canonical.clone() } else { lists[k].clone() };
-            let c = Case::Stream { req, items };
+        // the canonical stream once per writer behaviour (everything at once, 1, 7, 33 bytes per call)
+        let mut streams: Vec<Case> = (0u8..4).map(|io| Case::Stream { req: reqs[0].clone(), items: canonical.clone(), io: Some(io) }).collect();
+        for (k, req) in reqs.into_iter().enumerate().skip(1) {
+            streams.push(Case::Stream { req, items: lists[k].clone(), io: None });
+        }
+        streams.extend((0u8..ctx.tier.pick(4, 40)).map(Case::IdentityBytes));
+        for c in streams {
             let mut out = self.check(ctx, &c);
             out.label("fixed-streams");
             stats.record(&out, case_hash(&c), || self.sample_view(&c));
@@ -492,7 +550,7 @@ impl Property for C10 {
     fn sample_view(&self, case: &Case) -> serde_json::Value {
         match case {
             Case::Witness { w, cut, extend } => serde_json::json!({"Witness": {"s": w.s, "limit": w.limit, "mid": w.mid, "path_len": w.path.len(), "bits": w.bits, "cut": cut, "extend": extend}}),
-            Case::Stream { req, items } => serde_json::json!({"Stream": {"index": req.index, "limit": req.limit, "mid": req.mid, "items": format!("{items:?}")}}),
+            Case::Stream { req, items, .. } => serde_json::json!({"Stream": {"index": req.index, "limit": req.limit, "mid": req.mid, "items": format!("{items:?}")}}),
             Case::VecFr(v) if v.len() > 4 => serde_json::json!({"VecFr_len": v.len(), "first": v[0]}),
             c => serde_json::to_value(c).unwrap(),
         }
